@@ -576,6 +576,11 @@ func doSeq(ctx *hx.Ctx, sc *SeqCase) {
 	b, _ := json.Marshal(sc)
 	ctx.Cov.Case(string(b), len(sc.Ops) >= 10, nil)
 	if class != "" {
+		for _, v := range ctx.Violations {
+			if v.Class == class {
+				return // already reported (and shrunk) once in this run
+			}
+		}
 		// shrink: drop ops while the same class reproduces
 		best := sc
 		for changed := true; changed; {
